@@ -295,7 +295,7 @@ def _rt_cols(c, b, link, bold):
     if _SPELL[b] is not None:
         kw["bgcolor"] = _SPELL[b]
     if link:
-        kw["link"] = "http://x/y?z=1"
+        kw["link"] = "http://x/Some/README.md?z=CVE-1"
     if bold:
         kw["bold"] = True
     s = Style(**kw)
